@@ -316,7 +316,7 @@ func queryStoreHeight(r *Run, rule string) {
 	}
 	ok := false
 	Instrs(f, func(in ssa.Instruction) {
-		if st, isSt := in.(*ssa.Store); isSt && strings.HasSuffix(P.TermAt(st.Addr, st).String(), "resp.Height") {
+		if st, isSt := in.(*ssa.Store); isSt && strings.HasSuffix(P.TermAt(st.Addr, st).String(), "ResponseQuery.Height") {
 			v := P.TermAt(st.Val, st).String()
 			ok = v == "phi("+lbh+", param:req.Height)" || v == "phi(param:req.Height, "+lbh+")"
 		}
